@@ -53,7 +53,8 @@ impl<T, E> Stream for ObservableStream<T, E> {
           Poll::Ready(None)
         }
       },
-      None => Poll::Pending,
+      // the sender is gone (the source failed or was dropped): end of stream
+      None => Poll::Ready(None),
     }
   }
 }
